@@ -431,19 +431,25 @@ class Formatter:
 
         parent = d.scope_stack[-1]
 
-        if not isinstance(parent, Proto):
-            # Member of Non-Proto scopes: message, enum etc.
+        if isinstance(parent, Enum):
+            # Enum fields are always referenced through their enum.
             return definition_name
 
         if not self.support_import_as_member():
             return definition_name
 
-        if not parent.scope_stack:
-            # `parent` is the top proto.
+        # The proto this definition is declared in, directly or nested in messages.
+        protos = [scope for scope in d.scope_stack if isinstance(scope, Proto)]
+        if not protos:
             return definition_name
-        # `parent` is imported in another proto.
+        proto = protos[-1]
+
+        if not proto.scope_stack:
+            # `proto` is the top proto.
+            return definition_name
+        # `proto` is imported in another proto.
         return self.delimer_cross_proto().join(
-            [self._get_definition_name(parent), definition_name]
+            [self._get_definition_name(proto), definition_name]
         )
 
     @final
